@@ -23,6 +23,7 @@ def install(ex):
         S[p + '.verifConcretize'] = verif_concretize
         S[p + '.verifNativeRepeat'] = lambda ex, a, i: 1
         S[p + '.verifNative'] = lambda ex, a, i: False
+        S[p + '.verifFailed'] = lambda ex, a, i: False
         S[p + '.verifEffectsBegin'] = effects_begin
         S[p + '.verifEffectsEnd'] = effects_end
         S[p + '.verifParallel'] = lambda ex, a, i: ex.call_value(a[1], [], i)
